@@ -40,6 +40,17 @@ def isDictV : V → Bool
 def lookupKey (kvs : List (V × V)) (k : String) : Option V :=
   (kvs.find? (fun kv => kv.1 == V.str k)).map (·.2)
 
+/-- the three alias sources of a field, in the order `__get_field_alias` consults them:
+    `metadata["alias"]`, the Alias annotations of an `Annotated` type (the last one wins: the
+    loop keeps overwriting), `Config.aliases[name]` -/
+def aliasOf (md : Option String) (annotated : List String) (config : Option String) : Option String :=
+  match md with
+  | some a => some a
+  | none =>
+    match annotated.getLast? with
+    | some a => some a
+    | none => config
+
 /-- the key(s) a field is read from: its alias if it has one, else its name; with
     allow_deserialization_not_by_alias the name is the fallback -/
 def findKey (cfg : Cfg) (f : FieldDef) (kvs : List (V × V)) : Option V :=
